@@ -26,3 +26,5 @@ func noteLayout[T comparable](c *core.Ctx, s *sync2.Set[T]) {
 	k := layoutKey(s.VerifLayout())
 	c.Distinct("concurrent_set_layouts_at_binary_ops", core.HashString(k))
 }
+
+func layoutOfMap[K comparable, V any](m *sync2.Map[K, V]) string { return layoutKey(m.VerifLayout()) }
